@@ -39,6 +39,9 @@ def plain_post(ao, kind, e, form):
 def timed_post(ao, kind, e, period, times, deferred, form):
     """a timed post with the given period / times / deferred, by keyword, by position, or leaving out what equals the default"""
     f = ao.post_fifo if kind == "F" else ao.post_lifo
+    if times == 0 and form % 3 == 1:
+        # "for ever" as the documented default passed on explicitly: times=None (client code that forwards optional arguments)
+        return f(e, period, None, bool(deferred)) if form % 2 else f(e, period=period, times=None, deferred=bool(deferred))
     # the flag as a program may hold it: the bool, or another value of the same truth (a count, a text, a container)
     deferred = ((True, False), (1, 0), ("yes", ""), ([0], None), (2.5, 0.0))[(form // 5) % 5][0 if deferred else 1]
     form = form % 5
